@@ -15,6 +15,44 @@ Precondition (cases excluded, not failures): t does not begin or end with a Unic
 character -- the ATX heading rule strips leading/trailing blanks before inline parsing, so such
 a t is the same inline text as its stripped form, which is enumerated anyway.
 
+Input families (all deterministic for a given (tier, seed); see run() for the bounds):
+
+  enum5 / enum-star / enum-underscore   exhaustive ALPHA enumerations of the property's quantifier
+  random                                seeded random strings over WIDE_OTHER (BMP only; kept unchanged)
+  random-astral                         seeded random strings over WIDE_ASTRAL (adds astral punctuation,
+                                        astral letters, S* symbols, more Zs, non-ASCII digits, a mark)
+  charclass-matrix                      DIRECTED: for a character c and a run d^n (d in * _, n in 1 2 3),
+                                        c on either side of the run with a letter / whitespace / line
+                                        edge / punctuation on the other side, observed with an
+                                        open-probe, a close-probe and a combined probe (char_matrix()).
+                                        c ranges over EVERY ASCII punctuation character, EVERY non-ASCII
+                                        character of general category P* (BMP and astral), EVERY Zs
+                                        character + TAB, the named representatives CLASS_REPS, and a
+                                        seed-rotated sample of every L* M* N* S* category (BMP and astral
+                                        separately) -- S* are symbols, NOT punctuation in CommonMark 0.30.
+  charclass-enum                        exhaustive ALPHA over one representative per character class
+                                        (REPS10) up to length 5
+  partial-runs                          DIRECTED: 3 and 4 delimiter runs of length 1..5 / 1..4 separated by
+                                        'a' or '.', runs that can both open and close and are consumed in
+                                        two or more steps (rule of three on ORIGINAL lengths across partly
+                                        consumed runs, e.g. '*a***a*', '**a*.*.'); the number of cases whose
+                                        expected output changes when the rule of three is applied to the
+                                        remaining lengths is measured and reported
+  multiline-par                         exhaustive ALPHA over {a, SP, *, _, ., LF} with at least one line
+                                        ending, observed through Document(t) (one paragraph; the line
+                                        ending is a Unicode whitespace character for the flanking rules and
+                                        is rendered as a soft break).  Preconditions: no empty line, no line
+                                        with leading/trailing blanks, no thematic break line, no line that
+                                        starts a bullet list item.
+
+The seven characters the reference model does not support in general (backtick [ ] backslash < & !) are ASCII
+punctuation too.  They are admitted when the string contains exactly ONE of them and nothing it
+could pair with ('>' for '<', ';' for '&'; a backslash only before an ASCII letter/digit or at the
+end): such a character is literal text by the specification (no code span, link, image, autolink,
+raw HTML, entity or escape can be formed), so for the delimiter algorithm it is just a punctuation
+character.  The oracle then runs the model on the string with the character replaced by a private
+stand-in punctuation character and substitutes it back (see _spec_html).
+
 Failure classes: a disagreement is attributed by replaying the *reference model* with named
 deviations from the specification switched on (see spec_emphasis.spec_emphasis keyword arguments)
 and taking the smallest set of deviations that reproduces the implementation's output exactly.
@@ -23,11 +61,13 @@ import itertools
 import json
 import random
 import traceback
+import unicodedata
 
 from runtime.common import use_repo, spec_examples, pool_map, merge
 from runtime import spec_emphasis as SE
 
 SIGMA5 = ['a', ' ', '*', '_', '.']
+SIGMA6NL = ['a', ' ', '*', '_', '.', '\n']
 # wider alphabet for the random part: letters, digits, ASCII + Unicode punctuation (Pi, Pf, Po, Pd,
 # Ps/Pe, Pc), ASCII + Unicode whitespace (TAB, NBSP = Zs, EM SPACE = Zs, IDEOGRAPHIC SPACE = Zs),
 # a non-ASCII letter, a currency symbol (Sc: NOT punctuation in 0.30).  Heavily weighted to * and _.
@@ -36,6 +76,37 @@ WIDE_OTHER = ['a', 'b', '\u00e9', '\u042f', '0', '7',
               '.', ',', '-', '(', ')', '"', "'", ':', '?', '/', '+', '=', '$', '%', '@',
               '\u201c', '\u201d', '\u00a1', '\u00bf', '\u2014', '\u00ab', '\u00bb', '\u203f',
               '\u3001', '\u20ac', '\u00b7']
+# second random alphabet (family random-astral): WIDE_OTHER + astral punctuation (Po, Pd), astral
+# letters (Lu, Lo), astral digit, S* symbols BMP + astral (Sc, Sm, So, Sk: not punctuation in 0.30),
+# further Zs characters, a non-ASCII BMP digit, a combining mark, ASCII symbols that ARE punctuation.
+WIDE_ASTRAL = WIDE_OTHER + [
+    '\U00010100', '\U0001039f', '\U00011047', '\U0001e95e', '\U00010ead', '\U00016fe2', '\U0001da87',
+    '\U00010400', '\U0001d400', '\U00020000', '\U0001d7ce',
+    '\u00a3', '\u2190', '\u00a9', '\u00ac', '\u00b4', '\U0001f600', '\U0001d6c1', '\U0001f3fb', '\U0001e2ff',
+    '\u1680', '\u202f', '\u205f', '\u0663', '\u0301', '~', '^', '|', '>', '#', ';', '{', '}']
+
+# named representatives of every character class that matters around a delimiter run
+CLASS_REPS = [
+    # ASCII letter / digit, non-ASCII letter, astral letter (Lu, Lo), astral digit
+    'a', 'Z', '0', '\u00e9', '\u042f', '\u4e2d', '\U00010400', '\U00020000', '\U0001d400', '\U0001d7ce',
+    # BMP Unicode punctuation: Po Pd Po Pi Pf Pc Ps Pe, fullwidth forms
+    '\u00a1', '\u2014', '\u3001', '\u00ab', '\u00bb', '\u203f', '\u300c', '\u300d', '\uff01', '\uff3f',
+    # astral punctuation: AEGEAN WORD SEPARATOR LINE, UGARITIC WORD DIVIDER, BRAHMI DANDA,
+    # ADLAM INITIAL EXCLAMATION MARK, YEZIDI HYPHENATION MARK (the only astral Pd), SIGNWRITING COMMA
+    '\U00010100', '\U0001039f', '\U00011047', '\U0001e95e', '\U00010ead', '\U0001da87',
+    # ASCII whitespace, Unicode whitespace (Zs)
+    ' ', '\t', '\u00a0', '\u2003', '\u3000', '\u1680',
+    # symbols S*: NOT punctuation in CommonMark 0.30 (they are in 0.31): Sc Sm So Sk, BMP and astral
+    '\u00a3', '\u20ac', '\u2190', '\u00ac', '\u00a9', '\u00b4', '\U0001f600', '\U0001d6c1', '\U0001f3fb',
+    '\U0001e2ff',
+    # marks and other numbers
+    '\u0301', '\u0663', '\u00bd',
+]
+# one representative per class for the small exhaustive enumeration charclass-enum
+REPS10 = ['a', ' ', '*', '_', '.', '\u2014', '\U00010100', '\u00a0', '\u00a3', '\U00010400']
+
+SPECIALS = '`[]\\<&!'            # == SE.UNSUPPORTED minus CR
+STANDIN = '\u2e2e'               # REVERSED QUESTION MARK (Po): private stand-in, never generated
 
 # deviations tried for attribution, in this order (slug, kwargs)
 DEVIATIONS = [
@@ -49,6 +120,7 @@ DEVIATIONS = [
 DISFAVOURED = ('rule3-on-current-length',)
 
 _R = None
+_BOUNDS = (8, 12)                # (n5, n2) of the current run; set by run() before the pool forks
 
 
 def _renderer():
@@ -62,19 +134,53 @@ def _renderer():
     return _R
 
 
-def observe(t):
-    """-> ('ok', inner_html) | ('raise', 'ExcType: msg @ file:line func') | ('shape', html)"""
+def observe(t, mode='h'):
+    """-> ('ok', inner_html) | ('raise', 'ExcType: msg @ file:line func') | ('shape', html)
+    mode 'h': t is the content of an ATX heading; mode 'p': t is a whole (multi-line) paragraph."""
     r, Document = _renderer()
     try:
-        html = r.render(Document('# ' + t))
+        html = r.render(Document(('# ' + t) if mode == 'h' else t))
     except Exception as e:  # noqa
         tb = traceback.extract_tb(e.__traceback__)
         fr = tb[-1]
         where = '%s:%s' % (fr.filename.rsplit('/', 1)[-1], fr.name)
         return 'raise', '%s: %s @ %s' % (type(e).__name__, e, where)
-    if html.startswith('<h1>') and html.endswith('</h1>\n') and html.count('<h1>') == 1:
-        return 'ok', html[4:-6]
+    if mode == 'h':
+        if html.startswith('<h1>') and html.endswith('</h1>\n') and html.count('<h1>') == 1:
+            return 'ok', html[4:-6]
+    else:
+        if html.startswith('<p>') and html.endswith('</p>\n') and html.count('<p>') == 1:
+            return 'ok', html[3:-5]
     return 'shape', html
+
+
+def _literal_special(t):
+    """The single character of SPECIALS in t when it is certainly literal text, '' when t has none;
+    raises ValueError when t is outside the supported domain."""
+    found = [i for i, c in enumerate(t) if c in SPECIALS]
+    if not found:
+        return ''
+    if len(found) > 1 or STANDIN in t:
+        raise ValueError('more than one special character')
+    i = found[0]
+    c = t[i]
+    if c == '<' and '>' in t:
+        raise ValueError('< with >')
+    if c == '&' and ';' in t:
+        raise ValueError('& with ;')
+    if c == '\\' and i + 1 < len(t) and not (t[i + 1].isascii() and t[i + 1].isalnum()):
+        raise ValueError('backslash before a non-alphanumeric character')
+    return c
+
+
+def _spec_html(t, **kw):
+    """to_html(spec_emphasis(t)); a lone, certainly literal special character is handled by running
+    the model with a stand-in punctuation character in its place.  ValueError = unsupported."""
+    c = _literal_special(t)
+    if not c:
+        return SE.spec_html(t, **kw)
+    out = SE.spec_html(t.replace(c, STANDIN), **kw)
+    return out.replace(STANDIN, {'<': '&lt;', '&': '&amp;'}.get(c, c))
 
 
 def classify(t, observed):
@@ -90,10 +196,54 @@ def classify(t, observed):
         for i in combo:
             kw.update(DEVIATIONS[i][1])
         try:
-            if SE.spec_html(t, **kw) == observed:
+            if _spec_html(t, **kw) == observed:
                 return '+'.join(DEVIATIONS[i][0] for i in combo)
         except Exception:  # noqa
             pass
+    return classify_flanking(t, observed)
+
+
+def _char_class(c):
+    """Class of a character by the specification (section 2.1), refined for reporting."""
+    if c in '*_':
+        return 'delimiter'
+    if SE.is_unicode_whitespace(c):
+        return 'ascii-whitespace' if c.isascii() else 'unicode-whitespace'
+    plane = 'ascii' if c.isascii() else ('bmp' if ord(c) < 0x10000 else 'astral')
+    if SE.is_punctuation(c):
+        return plane + '-punctuation'
+    cat = unicodedata.category(c)
+    if cat[0] == 'S':
+        return plane + '-symbol'
+    return plane + '-' + {'L': 'letter', 'N': 'number', 'M': 'mark'}.get(cat[0], 'other-' + cat)
+
+
+def classify_flanking(t, observed):
+    """Second attribution stage: is the observed output what the SPECIFICATION algorithm gives when
+    the characters of one class next to a delimiter run are put into another flanking class?
+    -> 'flanking-<class>-treated-as-<ws|punct|other>' or 'unexplained'."""
+    neigh = set()
+    for i, c in enumerate(t):
+        if c in '*_':
+            for j in (i - 1, i + 1):
+                if 0 <= j < len(t) and t[j] not in '*_':
+                    neigh.add(_char_class(t[j]))
+    spec_ws, spec_p = SE.is_unicode_whitespace, SE.is_punctuation
+    try:
+        for cls in sorted(neigh):
+            for name, as_ws, as_p in (('whitespace', True, False), ('punctuation', False, True),
+                                      ('other', False, False)):
+                SE.is_unicode_whitespace = (lambda c, cls=cls, v=as_ws:
+                                            v if (c not in '*_' and _char_class(c) == cls) else spec_ws(c))
+                SE.is_punctuation = (lambda c, cls=cls, v=as_p:
+                                     v if (c not in '*_' and _char_class(c) == cls) else spec_p(c))
+                try:
+                    if _spec_html(t) == observed:
+                        return 'flanking-%s-treated-as-%s' % (cls, name)
+                except Exception:  # noqa
+                    pass
+    finally:
+        SE.is_unicode_whitespace, SE.is_punctuation = spec_ws, spec_p
     return 'unexplained'
 
 
@@ -102,45 +252,85 @@ def _has_ws_edge(t):
                         or SE.is_unicode_whitespace(t[0]) or SE.is_unicode_whitespace(t[-1]))
 
 
-def check_many(texts, selfcheck):
+def _in_enumerated(t):
+    """Is t a member of one of the three exhaustive heading enumerations of this run?"""
+    n5, n2 = _BOUNDS
+    s = set(t)
+    return ((len(t) <= n5 and s <= set(SIGMA5)) or (len(t) <= n2 and (s <= {'a', '*'} or s <= {'a', '_'})))
+
+
+def _par_precondition(t):
+    """t (with line endings) is exactly one paragraph whose inline content is t itself."""
+    for line in t.split('\n'):
+        if not line or line[0] == ' ' or line[-1] == ' ':
+            return False
+        bare = line.replace(' ', '')
+        if len(bare) >= 3 and bare[0] in '*_' and bare == bare[0] * len(bare):
+            return False                                     # thematic break
+        if line == '*' or line.startswith('* '):
+            return False                                     # bullet list item
+    return True
+
+
+def check_many(texts, selfcheck, family='enum5', mode='h', dedupe=False, rule3_probe=False):
     res = {'evaluations': 0, 'distinct_nontrivial': 0, 'contract_evaluations': 0,
            'failures': [], 'samples': [], 'skipped_precondition': 0, 'selfcheck_evaluations': 0,
-           'by_class': {}, 'by_len': {}, 'by_class_len': {}}
+           'by_class': {}, 'by_len': {}, 'by_class_len': {},
+           'skipped_unsupported': 0, 'already_enumerated': 0, 'rule3_sensitive': 0,
+           'family': {family: {'evaluations': 0, 'nontrivial': 0}}}
+    fam = res['family'][family]
+    sfx = '' if mode == 'h' else '-par'
     for t in texts:
-        if _has_ws_edge(t):
+        if mode == 'h':
+            if _has_ws_edge(t):
+                res['skipped_precondition'] += 1
+                continue
+            if dedupe and _in_enumerated(t):
+                res['already_enumerated'] += 1
+                continue
+        elif not _par_precondition(t):
             res['skipped_precondition'] += 1
             continue
-        expected = SE.spec_html(t)
+        try:
+            expected = _spec_html(t)
+        except ValueError:
+            res['skipped_unsupported'] += 1
+            continue
         if selfcheck:
             # the keyed lower bounds are an optimisation that must be unobservable
             res['selfcheck_evaluations'] += 1
-            if SE.spec_html(t, bottoms='none') != expected:
+            if _spec_html(t, bottoms='none') != expected:
                 raise AssertionError('reference model self-check failed on %r' % t)
+        if rule3_probe and _spec_html(t, rule3='current') != expected:
+            res['rule3_sensitive'] += 1
         res['evaluations'] += 1
-        nontrivial = '<' in expected
+        fam['evaluations'] += 1
+        nontrivial = '<' in expected.replace('&lt;', '')
         if nontrivial:
             res['distinct_nontrivial'] += 1
-        kind, obs = observe(t)
+            fam['nontrivial'] += 1
+        kind, obs = observe(t, mode)
         res['contract_evaluations'] += 1
         fail = None
         if kind == 'raise':
             cls = 'remove-right-truncates-type' if obs.startswith('IndexError') else 'exception-other'
-            fail = ('noraise', obs, cls)
+            fail = ('noraise' + sfx, obs, cls)
         else:
             res['contract_evaluations'] += 1
             if kind == 'shape':
-                fail = ('shape', obs, 'heading-shape')
+                fail = ('shape' + sfx, obs, 'heading-shape' if mode == 'h' else 'paragraph-shape')
             else:
                 res['contract_evaluations'] += 1
                 if obs != expected:
-                    fail = ('structure', obs, classify(t, obs))
+                    fail = ('structure' + sfx, obs, classify(t, obs))
         if fail:
             contract, obs, cls = fail
+            doc = ("'# ' + %r" % t) if mode == 'h' else repr(t)
             res['failures'].append({
                 'key': '%s|%r' % (contract, t), 'contract': contract, 'input': t,
-                'observed': obs, 'expected': expected, 'class': cls,
+                'observed': obs, 'expected': expected, 'class': cls, 'family': family,
                 'replay': "from mistletoe import Document, HtmlRenderer; "
-                          "print(HtmlRenderer().render(Document('# ' + %r)))" % t})
+                          "print(HtmlRenderer().render(Document(%s)))" % doc})
             res['by_class'][cls] = res['by_class'].get(cls, 0) + 1
             L = str(len(t))
             res['by_len'][L] = res['by_len'].get(L, 0) + 1
@@ -151,21 +341,128 @@ def check_many(texts, selfcheck):
     return res
 
 
+# ---------------------------------------------------------------- directed families
+
+def char_matrix(c, runs=(1, 2, 3), kinds='*_'):
+    """All probes that put character c directly before / after a delimiter run d^n.
+
+    The class of c (whitespace / punctuation / other) is observable only together with the
+    character on the OTHER side of the run, so that one ranges over letter, punctuation,
+    whitespace and the edge of the text.  open-probe: the run under test is followed (later) by a
+    pure closer `a d^n<end>`; close-probe: it is preceded by a pure opener `<start>d^n a`;
+    combined: both.  20 strings per (c, d, n)."""
+    for d in kinds:
+        for n in runs:
+            R = d * n
+            # c AFTER the run
+            for x in ('', 'a ', 'a', '.'):
+                yield x + R + c + 'a' + R                    # open-probe
+            for x in ('', ' ', '.'):
+                yield R + 'a' + x + R + c + 'a'              # close-probe
+            # c BEFORE the run
+            for y in ('', '.', ' '):
+                yield 'a' + c + R + y + 'a' + R              # open-probe
+            for y in ('', 'a', '.', ' a'):
+                yield R + 'a' + c + R + y                    # close-probe
+            # combined
+            for o in ('', '.', ' '):
+                yield R + 'a' + c + R + o + 'a' + R
+                yield R + 'a' + o + R + c + 'a' + R
+
+
+def matrix_chars(seed, thorough):
+    """(characters, description counts) for the family charclass-matrix."""
+    out = [c for c in sorted(SE.ASCII_PUNCT) if c not in '*_']
+    cats = {}
+    for i in range(0x80, 0x110000):
+        ch = chr(i)
+        cats.setdefault(unicodedata.category(ch), []).append(ch)
+    counts = {'ascii-punct': len(out)}
+    allp = [ch for k in sorted(cats) if k[0] == 'P' for ch in cats[k]]
+    counts['P*'] = len(allp)
+    counts['P* astral'] = sum(1 for ch in allp if ord(ch) >= 0x10000)
+    out += allp
+    zs = [' ', '\t'] + cats.get('Zs', [])
+    counts['Zs+SP+TAB'] = len(zs)
+    out += zs
+    out += CLASS_REPS
+    quota = {'S': 160 if thorough else 48, 'L': 80 if thorough else 24,
+             'N': 40 if thorough else 12, 'M': 40 if thorough else 12}
+    sampled = 0
+    for k in sorted(cats):
+        if k[0] not in quota:
+            continue
+        for part in ([ch for ch in cats[k] if ord(ch) < 0x10000], [ch for ch in cats[k] if ord(ch) >= 0x10000]):
+            if not part:
+                continue
+            q = min(len(part), quota[k[0]] // 2)
+            for j in range(q):
+                out.append(part[(j * len(part) // q + seed) % len(part)])
+                sampled += 1
+    counts['sampled L* M* N* S*'] = sampled
+    seen, uniq = set(), []
+    for ch in out:
+        if ch not in seen:
+            seen.add(ch)
+            uniq.append(ch)
+    counts['total'] = len(uniq)
+    return uniq, counts
+
+
+def partial_runs():
+    """3 and 4 delimiter runs separated by a letter or a punctuation character: runs in the middle
+    can both open and close (`a***a`, `.___.`) and are consumed in several steps."""
+    lead = ('', 'a', '.')
+    for d in '*_':
+        for ls in itertools.product(range(1, 6), repeat=3):
+            for f in itertools.product('a.', repeat=2):
+                for p in lead:
+                    for q in lead:
+                        yield p + d * ls[0] + f[0] + d * ls[1] + f[1] + d * ls[2] + q
+        for ls in itertools.product(range(1, 5), repeat=4):
+            for f in itertools.product('a.', repeat=3):
+                for p in lead:
+                    for q in lead:
+                        yield (p + d * ls[0] + f[0] + d * ls[1] + f[1] + d * ls[2] + f[2]
+                               + d * ls[3] + q)
+    for ds in itertools.product('*_', repeat=3):
+        if len(set(ds)) == 1:
+            continue
+        for ls in itertools.product(range(1, 4), repeat=3):
+            for f in itertools.product('a.', repeat=2):
+                for p in lead:
+                    for q in lead:
+                        yield p + ds[0] * ls[0] + f[0] + ds[1] * ls[1] + f[1] + ds[2] * ls[2] + q
+
+
+# the examples named in the property / review; asserted to be in the quick domain by run()
+NAMED_PARTIAL = ['*a***a*', '**a*.*.', '**a****b*', '**_*_*', '*_**.*', '***a**a*', '*a**a***',
+                 '.__.___.__.', '.___.__._.']
+
+
 # ---------------------------------------------------------------- task generation
 
 def _task_texts(task):
     if task[0] == 'alpha':
-        _, sigma, prefix, rest = task
+        _, sigma, prefix, rest = task[:4]
+        need_nl = len(task) > 4 and task[4] == 'nl'
         if rest is None:            # all strings up to len(prefix) marker: prefix is an int here
             for k in range(0, prefix + 1):
                 for tup in itertools.product(sigma, repeat=k):
-                    yield ''.join(tup)
+                    if not need_nl or '\n' in tup:
+                        yield ''.join(tup)
         else:
             for tup in itertools.product(sigma, repeat=rest):
-                yield prefix + ''.join(tup)
+                if not need_nl or '\n' in tup or '\n' in prefix:
+                    yield prefix + ''.join(tup)
+    elif task[0] == 'list':
+        for t in task[1]:
+            yield t
     else:
-        _, seed, chunk, count, maxlen = task
-        rnd = random.Random('C06/%d/%d' % (seed, chunk))
+        _, seed, chunk, count, maxlen = task[:5]
+        astral = len(task) > 5 and task[5] == 'astral'
+        others = WIDE_ASTRAL if astral else WIDE_OTHER
+        rnd = random.Random(('C06/astral/%d/%d' if astral else 'C06/%d/%d') % (seed, chunk))
         for _ in range(count):
             n = rnd.randint(1, maxlen)
             p_delim = rnd.choice((0.35, 0.5, 0.65))
@@ -176,7 +473,7 @@ def _task_texts(task):
                     run = rnd.choice((1, 1, 1, 2, 2, 3, 3, 4, 5))
                     out.extend(c * run)
                 else:
-                    out.append(rnd.choice(WIDE_OTHER))
+                    out.append(rnd.choice(others))
             t = ''.join(out[:n])
             # precondition: no whitespace at the edges (strip instead of reject: fixed case count)
             while t and (t[0].isspace()):
@@ -186,18 +483,19 @@ def _task_texts(task):
             yield t
 
 
-def alpha_tasks(sigma, n, plen):
+def alpha_tasks(sigma, n, plen, flag=None):
     """Partition ALPHA(sigma, n) into tasks by prefix."""
-    tasks = [('alpha', sigma, min(n, plen), None)]
+    extra = (flag,) if flag else ()
+    tasks = [('alpha', sigma, min(n, plen), None) + extra]
     for k in range(plen + 1, n + 1):
         for pre in itertools.product(sigma, repeat=plen):
-            tasks.append(('alpha', sigma, ''.join(pre), k - plen))
+            tasks.append(('alpha', sigma, ''.join(pre), k - plen) + extra)
     return tasks
 
 
 def _run_task(arg):
-    task, selfcheck = arg
-    return check_many(_task_texts(task), selfcheck)
+    task, selfcheck, opts = arg
+    return check_many(_task_texts(task), selfcheck, **opts)
 
 
 def validate_model():
@@ -220,51 +518,110 @@ def validate_model():
     return ok, skipped
 
 
+def validate_char_classes():
+    """The character classes of the reference model, checked against the wording of section 2.1
+    on the named representatives (guards the oracle itself, independent of mistletoe)."""
+    for c in CLASS_REPS + REPS10:
+        cls = _char_class(c)
+        cat = unicodedata.category(c)
+        want_p = c in '!"#$%&\'()*+,-./:;<=>?@[\\]^_`{|}~' or cat in ('Pc', 'Pd', 'Pe', 'Pf', 'Pi', 'Po', 'Ps')
+        want_ws = c in '\t\n\x0c\r' or cat == 'Zs'
+        assert SE.is_punctuation(c) == want_p and SE.is_unicode_whitespace(c) == want_ws, (c, cls)
+    for c, cls in (('\U00010100', 'astral-punctuation'), ('\U0001039f', 'astral-punctuation'),
+                   ('\U00011047', 'astral-punctuation'), ('\U0001e95e', 'astral-punctuation'),
+                   ('\u2014', 'bmp-punctuation'), ('\u00a3', 'bmp-symbol'), ('\u2190', 'bmp-symbol'),
+                   ('\U0001f600', 'astral-symbol'), ('\u00a0', 'unicode-whitespace'),
+                   ('\U00010400', 'astral-letter'), ('$', 'ascii-punctuation'), ('\t', 'ascii-whitespace')):
+        assert _char_class(c) == cls, (c, _char_class(c), cls)
+
+
 def run(tier, seed, workers):
+    global _BOUNDS
     thorough = tier == 'thorough'
     n5 = 10 if thorough else 8
     n2 = 14 if thorough else 12
     n_rand = 500000 if thorough else 20000
+    n_rand2 = 250000 if thorough else 10000
+    n_enum = 6 if thorough else 5
+    n_nl = 8 if thorough else 7
+    _BOUNDS = (n5, n2)
     validated, vskipped = validate_model()
-    tasks = []
-    tasks += alpha_tasks(SIGMA5, n5, 4)
-    tasks += alpha_tasks(['a', '*'], n2, 6)
-    tasks += alpha_tasks(['a', '_'], n2, 6)
-    per = 2000
-    for c in range(n_rand // per):
-        tasks.append(('random', seed, c, per, 40))
+    validate_char_classes()
+    for t in NAMED_PARTIAL[:7]:
+        # hole (2) of the review: these must be members of the exhaustive quick enumerations
+        assert _in_enumerated(t) or len(t) > n5, t
+    H = {'mode': 'h'}
+    tasks = []           # (task, selfcheck, opts)
+    for t in alpha_tasks(SIGMA5, n5, 4):
+        sc = not (thorough and t[3] is not None and len(t[2]) + t[3] > 8)
+        tasks.append((t, sc, dict(H, family='enum5')))
     # model self-check (keyed bottoms == no bottoms) on everything in quick, and in thorough on all
     # but the length-9/10 part of the 5-letter enumeration (it is pure model-vs-model work)
-    args = []
-    for t in tasks:
-        sc = True
-        if thorough and t[0] == 'alpha' and t[1] is SIGMA5 and t[3] is not None and len(t[2]) + t[3] > 8:
-            sc = False
-        args.append((t, sc))
+    for t in alpha_tasks(['a', '*'], n2, 6):
+        tasks.append((t, True, dict(H, family='enum-star')))
+    for t in alpha_tasks(['a', '_'], n2, 6):
+        tasks.append((t, True, dict(H, family='enum-underscore')))
+    per = 2000
+    for c in range(n_rand // per):
+        tasks.append((('random', seed, c, per, 40), True, dict(H, family='random')))
+    for c in range(n_rand2 // per):
+        tasks.append((('random', seed, c, per, 40, 'astral'), True, dict(H, family='random-astral')))
+    # directed: character classes around runs
+    chars, char_counts = matrix_chars(seed, thorough)
+    for i in range(0, len(chars), 40):
+        texts = [t for c in chars[i:i + 40] for t in char_matrix(c)]
+        tasks.append((('list', texts), True, dict(H, family='charclass-matrix', dedupe=True)))
+    for t in alpha_tasks(REPS10, n_enum, 2):
+        tasks.append((t, True, dict(H, family='charclass-enum', dedupe=True)))
+    # directed: partly consumed runs
+    part = sorted(set(partial_runs()) | set(NAMED_PARTIAL))
+    for i in range(0, len(part), 4000):
+        tasks.append((('list', part[i:i + 4000]), True,
+                      dict(H, family='partial-runs', dedupe=True, rule3_probe=True)))
+    tasks.append((('list', NAMED_PARTIAL), True, dict(H, family='named-partial', rule3_probe=True)))
+    # multi-line paragraphs
+    for t in alpha_tasks(SIGMA6NL, n_nl, 3, 'nl'):
+        tasks.append((t, True, {'mode': 'p', 'family': 'multiline-par'}))
     # big tasks first for better load balance
-    order = sorted(range(len(args)), key=lambda i: -_task_size(args[i][0]))
-    parts = pool_map(_run_task, [args[i] for i in order], workers)
+    order = sorted(range(len(tasks)), key=lambda i: -_task_size(tasks[i][0]))
+    parts = pool_map(_run_task, [tasks[i] for i in order], workers)
     out = merge(parts)
-    by_class, by_len, by_cl = {}, {}, {}
-    skipped = selfchecks = 0
+    skipped = selfchecks = unsupported = already = r3 = 0
+    families = {}
+    named_r3 = 0
     for p in parts:
         skipped += p['skipped_precondition']
         selfchecks += p['selfcheck_evaluations']
-        for src, dst in ((p['by_class'], by_class), (p['by_len'], by_len), (p['by_class_len'], by_cl)):
-            for k, v in src.items():
-                dst[k] = dst.get(k, 0) + v
+        unsupported += p['skipped_unsupported']
+        already += p['already_enumerated']
+        for k, v in p['family'].items():
+            d = families.setdefault(k, {'evaluations': 0, 'nontrivial': 0})
+            d['evaluations'] += v['evaluations']
+            d['nontrivial'] += v['nontrivial']
+            if k == 'named-partial':
+                named_r3 += p['rule3_sensitive']
+            else:
+                r3 += p['rule3_sensitive']
+    # the named examples are evaluated twice (they are members of the enumerations): keep them out
+    # of the measured totals
+    nm = families.pop('named-partial', {'evaluations': 0, 'nontrivial': 0})
+    out['evaluations'] -= nm['evaluations']
+    out['distinct_nontrivial'] -= nm['nontrivial']
+    out['contract_evaluations'] -= 3 * nm['evaluations']
     fails = {}
     for f in out['failures']:
         fails.setdefault(f['key'], f)          # the random part may repeat an enumerated string
     fl = sorted(fails.values(), key=lambda f: (len(f['input']), f['input']))
     # recompute the tables on distinct inputs
-    by_class, by_len, by_cl = {}, {}, {}
+    by_class, by_len, by_cl, by_fam = {}, {}, {}, {}
     for f in fl:
         L = len(f['input'])
         by_class[f['class']] = by_class.get(f['class'], 0) + 1
         by_len[L] = by_len.get(L, 0) + 1
         by_cl.setdefault(f['class'], {})
         by_cl[f['class']][L] = by_cl[f['class']].get(L, 0) + 1
+        by_fam.setdefault(f['family'], {})
+        by_fam[f['family']][f['class']] = by_fam[f['family']].get(f['class'], 0) + 1
     minimal = {}
     for f in fl:
         minimal.setdefault(f['class'], f['input'])
@@ -273,13 +630,19 @@ def run(tier, seed, workers):
     out['failures_by_class'] = dict(sorted(by_class.items(), key=lambda kv: -kv[1]))
     out['failures_by_length'] = {str(k): by_len[k] for k in sorted(by_len)}
     out['failures_by_class_and_length'] = {c: {str(k): d[k] for k in sorted(d)} for c, d in by_cl.items()}
+    out['failures_by_family_and_class'] = by_fam
     out['minimal_input_per_class'] = minimal
     involving = {}
     for c, v in by_class.items():
-        for part in c.split('+'):
-            involving[part] = involving.get(part, 0) + v
+        for part_ in c.split('+'):
+            involving[part_] = involving.get(part_, 0) + v
     out['failures_involving_root_cause'] = dict(sorted(involving.items(), key=lambda kv: -kv[1]))
     out['skipped_precondition'] = skipped
+    out['skipped_unsupported'] = unsupported
+    out['directed_already_enumerated'] = already
+    out['families'] = families
+    out['matrix_characters'] = char_counts
+    out['rule3_sensitive_cases'] = {'partial-runs': r3, 'named examples (of %d)' % len(NAMED_PARTIAL): named_r3}
     out['model_selfcheck_evaluations'] = selfchecks
     out['model_validated_on_spec_examples'] = validated
     out['exhaustive'] = False      # the enumerated parts are exhaustive, the random part is not
@@ -288,15 +651,35 @@ def run(tier, seed, workers):
         'ALPHA({a,SP,*,_,.}, %d) + ALPHA({a,*}, %d) + ALPHA({a,_}, %d), each exhaustive incl. the empty '
         'string, + %d seeded random strings of length 1..40 over %d non-delimiter characters '
         '(letters, digits, ASCII/Unicode punctuation Pi Pf Po Pd Ps Pe Pc, TAB, NBSP, U+2003, U+3000, '
-        'a currency sign) mixed with * and _ runs of length 1..5; every string t observed through '
-        "HtmlRenderer().render(Document('# ' + t)); strings beginning or ending with whitespace are "
-        'excluded by precondition (%d excluded, not counted in evaluations). Reference model '
+        'a currency sign) mixed with * and _ runs of length 1..5 + %d more over %d characters (adds '
+        'astral punctuation / letters / digit, S* symbols, more Zs, a combining mark); '
+        '+ charclass-matrix: 120 probes (character directly before/after a run of length 1,2,3 of * and _, '
+        'other side letter/whitespace/punctuation/text edge; open-, close- and combined probe) for each '
+        'of %d characters = all %d ASCII punctuation characters except the delimiters, all %d non-ASCII '
+        'characters of category P* (%d astral), all %d Zs characters + SP + TAB, %d named class '
+        'representatives and a seed-rotated sample of %d characters from every L* M* N* S* category '
+        '(BMP and astral); + charclass-enum: ALPHA over {a, SP, *, _, ., U+2014, U+10100, U+00A0, '
+        'U+00A3, U+10400}, %d, exhaustive; + partial-runs: 3 runs of length 1..5 / 4 runs of length 1..4 '
+        'of one kind and 3 runs of length 1..3 of mixed kinds, separated by a or ., preceded/followed by '
+        'nothing, a or . (%d of these change when the rule of three uses the remaining lengths); '
+        "every string t observed through HtmlRenderer().render(Document('# ' + t)); "
+        '+ multiline-par: ALPHA({a,SP,*,_,.,LF}, %d) with at least one LF observed through '
+        'Document(t) as one paragraph; strings beginning or ending with whitespace (heading), resp. '
+        'with an empty line, a line with leading/trailing blanks, a thematic break or a bullet item '
+        '(paragraph) are excluded by precondition (%d excluded, not counted in evaluations); %d directed '
+        'strings with more than one of ` [ ] \\ < & ! or one that is not certainly literal are outside '
+        'the oracle and skipped; %d directed strings were already members of the exhaustive '
+        'enumerations and not evaluated twice. Reference model '
         'validated on %d/%d spec examples of section "Emphasis and strong emphasis" (rest use '
         'links/code/escapes/HTML) and self-checked (keyed openers_bottom == no openers_bottom) on %d cases.'
-        % (n5, n2, n2, n_rand, len(WIDE_OTHER), skipped, validated, validated + vskipped, selfchecks))
+        % (n5, n2, n2, n_rand, len(WIDE_OTHER), n_rand2, len(WIDE_ASTRAL),
+           char_counts['total'], char_counts['ascii-punct'], char_counts['P*'], char_counts['P* astral'],
+           char_counts['Zs+SP+TAB'] - 2, len(CLASS_REPS), char_counts['sampled L* M* N* S*'],
+           n_enum, r3, n_nl, skipped, unsupported, already,
+           validated, validated + vskipped, selfchecks))
     out['rule'] = ('a case is non-trivial when the specification output contains at least one <em> '
-                   'or <strong>; contracts per case: noraise, shape (single <h1>), structure '
-                   '(inner HTML == to_html(spec_emphasis(t)))')
+                   'or <strong>; contracts per case: noraise, shape (single <h1>, resp. single <p> for '
+                   'the family multiline-par), structure (inner HTML == to_html(spec_emphasis(t)))')
     return out
 
 
@@ -305,4 +688,6 @@ def _task_size(task):
         if task[3] is None:
             return sum(len(task[1]) ** k for k in range(task[2] + 1))
         return len(task[1]) ** task[3]
+    if task[0] == 'list':
+        return len(task[1])
     return task[3] * 3
